@@ -37,9 +37,11 @@ OPEN_STATEMENTS = [
     'reverse_jw_left_inverse is proved as an operator identity (reverse_jw(jw A) acts like A); the literal statement '
     '"normal_ordered(reverse_jw(jw A)) == normal_ordered(A) as dictionaries" additionally needs the uniqueness of normal '
     'ordered forms (property C03) and is checked exactly on random A',
-    'linearity / multiplicativity / dagger-compatibility of jordan_wigner are consequences of jw_exact in the Spec '
-    'semantics (jw_mul_sound, jw_add_sound are the Model-level halves); they are not stated as separate theorems and '
-    'are checked exactly on the implementation\'s values',
+    'linearity, multiplicativity, preservation of Hermiticity and faithfulness of jordan_wigner ARE theorems at the operator '
+    'level (jw_linear, jw_multiplicative: jw(A) * jw(B) has the matrix elements of A * B and of jw(A * B) for every pair of '
+    'FermionOperators; jw_hermitian_iff; jw_faithful), under the exact-regime flags of the transforms involved; '
+    'compatibility with hermitian_conjugated as a dictionary operation is not restated (it follows from jw_hermitian_iff-style '
+    'reasoning + C02/C03 adjointness) and is checked exactly on the implementation\'s values',
     'jw_jellium_direct_sound / jw_jellium_direct_sound_of_flags / jw_jellium_direct_eq_jordan_wigner / '
     'jellium_grid_index_structure ARE theorems (every grid, every dimension and lengths, spinless / spinful, with / without '
     'constant) over the exact index structure with the momentum sums abstract; hypotheses: K, P even, sum of P over the grid '
